@@ -4,7 +4,7 @@
    [expressible] (Spec/Expressible.v) is written without the printer's validator counter. *)
 From Verif Require Import Base.Str Base.Outcome Model.Ast Model.Token Model.Parser Model.Listener Model.Printer
   Spec.Sem Spec.Expressible Spec.Normalize Proofs.PrinterExpressible Proofs.Lossless Proofs.ParserComplete Proofs.LosslessTokens
-  Proofs.LexInversion Proofs.LexRender Proofs.ParserNatural Proofs.RoundTripChars Proofs.DeclRoundTrip.
+  Proofs.LexInversion Proofs.LexRender Proofs.ParserNatural Proofs.RoundTripChars Proofs.DeclRoundTrip Proofs.DocLex Proofs.DocPrint Proofs.DocRoundTrip Model.Transform.
 
 (* 1. on every rewrite a DSL document can carry, the printer's walk succeeds and its counter equals the
       number of direct assignments in the tree — for all trees, of any depth and operator nesting *)
@@ -130,3 +130,25 @@ Proof. exact printed_declaration_round_trip. Qed.
 Theorem C02_declaration_parser_reads_kinds_only : forall (g : tok -> tok), (forall t, tk (g t) = tk t) ->
   forall ts, p_reldecl (map g ts) = pmap g (reldecl_map g) (p_reldecl ts).
 Proof. exact p_reldecl_map. Qed.
+
+(* 14. THE WHOLE DOCUMENT, characters included.  For every condition-free, non-modular model whose names are plain
+       identifiers and whose relations the DSL can express ([model_ok]: schema 1.0/1.1/1.2, [plain_name] type and relation
+       names, every rewrite carriable and expressible, restrictions present), the printer model succeeds and what it writes
+       — header, blank lines, type blocks, "relations", relation lines, closing line feed — is turned by the pre-pass, the
+       lexer model, the parser model and the listener model ([dsl_to_model]) back into the model in canonical form:
+       types in the model's order, relations in name order, every rewrite normalised (direct assignment hoisted,
+       single-child operators collapsed), restrictions kept exactly where a direct assignment is. *)
+Theorem C02_document_round_trip : forall m, model_ok m ->
+  exists t exts md, fst (print_model false m) = Ok t /\
+    dsl_to_model t = DOk {| m_schema := m_schema m; m_types := map canon_td (m_types m); m_conds := [] |} exts md.
+Proof. exact document_round_trip. Qed.
+
+(* 15. the canonical form holds the same relations as the model, as a map *)
+Theorem C02_canonical_form_is_the_same_map : forall td,
+  Permutation.Permutation (keys (td_rels (canon_td td))) (keys (td_rels td)) /\
+  forall n, In n (keys (td_rels td)) -> assoc n (td_rels (canon_td td)) = Some (normalize (u_of td n)).
+Proof. exact canon_td_is_the_same_map. Qed.
+
+(* 16. non-vacuity of 14: a model with three types, a userset restriction and a union whose direct assignment is hoisted *)
+Theorem C02_document_example : model_ok ex_model.
+Proof. exact ex_model_ok. Qed.
